@@ -152,6 +152,9 @@ func mountVal(source string, options []string) int {
 	return pv(strings.TrimPrefix(source, "/src/"))
 }
 
+// Device is the device the alphabet uses for a key and a value.
+func Device(path string, v int) *api.LinuxDevice { return device(path, v) }
+
 func device(path string, v int) *api.LinuxDevice {
 	return &api.LinuxDevice{Path: path, Type: "c", Major: int64(v), Minor: int64(v + 100)}
 }
